@@ -23,4 +23,9 @@ theorem add_member_attaches_last : type_of% @Cjet.Props.CjsonTree.add_member_att
 theorem add_member_conserves_blocks : type_of% @Cjet.Props.CjsonTree.add_member_conserves_blocks := @Cjet.Props.CjsonTree.add_member_conserves_blocks
 theorem add_member_then_lookup : type_of% @Cjet.Props.CjsonTree.add_member_then_lookup := @Cjet.Props.CjsonTree.add_member_then_lookup
 
+theorem replace_checked_failure_changes_nothing : type_of% @Cjet.Props.CjsonTree.replace_checked_failure_changes_nothing := @Cjet.Props.CjsonTree.replace_checked_failure_changes_nothing
+theorem replace_unchecked_failure_strips_the_name : type_of% @Cjet.Props.CjsonTree.replace_unchecked_failure_strips_the_name := @Cjet.Props.CjsonTree.replace_unchecked_failure_strips_the_name
+theorem replace_unchecked_failure_loses_the_member : type_of% @Cjet.Props.CjsonTree.replace_unchecked_failure_loses_the_member := @Cjet.Props.CjsonTree.replace_unchecked_failure_loses_the_member
+theorem replace_success_in_place : type_of% @Cjet.Props.CjsonTree.replace_success_in_place := @Cjet.Props.CjsonTree.replace_success_in_place
+
 end Cjet.Props.CJSONTREE_DEV
